@@ -116,7 +116,7 @@ Proof.
         unfold w_types in *. cbn [w_loc]. rewrite Ht. split; [apply aext_refl|]. rewrite D1. eexists. split; [reflexivity|].
         split; cbn [w_loc w_exp wb_imp wb_exp]; [exact R1 | unfold w_types; cbn [w_loc]; rewrite Ht; exact Hx].
       - destruct Hw as [Hl Hx]. dinv E1 as [l [E0 E1]]. injection E1 as <-.
-        destruct (item_type_decl_sim _ _ _ _ Hl E0) as [X1 [b' [D1 R1]]]. unfold w_types in *. cbn [w_loc].
+        destruct (item_type_decl_sim _ _ _ _ _ Hl E0) as [X1 [b' [D1 R1]]]. unfold w_types in *. cbn [w_loc].
         split; [exact X1|]. rewrite D1. eexists. split; [reflexivity|].
         split; cbn [w_loc w_exp wb_imp wb_exp]; [exact R1 | unfold w_types; cbn [w_loc]; eapply Rexts_aext; eassumption].
       - eapply world_item_path_sim; try eassumption. exact (proj1 Hf).
